@@ -2,10 +2,12 @@ import Driver.Storage
 import Driver.Rns
 import Driver.Notif
 import Driver.Filetree
+import Driver.Msgs
 import Canine.Query.Storage
 import Canine.Query.Rns
 import Canine.Query.Notif
 import Canine.Query.Filetree
+import Canine.Query.Oracle
 open Lean (Json FromJson ToJson fromJson? toJson)
 namespace Canine
 namespace Query
@@ -23,6 +25,10 @@ namespace Notif.Query
 deriving instance FromJson, ToJson for Q
 deriving instance FromJson, ToJson for Resp
 end Notif.Query
+namespace Oracle.Query
+deriving instance FromJson, ToJson for Q
+deriving instance FromJson, ToJson for Resp
+end Oracle.Query
 namespace Filetree.Query
 deriving instance FromJson, ToJson for Q
 deriving instance FromJson, ToJson for Resp
@@ -62,6 +68,12 @@ def checkFiletree (j : Json) : Except String (Option String) := do
   let impl : Filetree.Query.Resp ← getField j "resp" >>= fromJson?
   return cmpField "resp" (Filetree.Query.run st q) impl
 
+def checkOracle (j : Json) : Except String (Option String) := do
+  let st : Oracle.State ← getField j "state" >>= fromJson?
+  let q : Oracle.Query.Q ← getField j "q" >>= fromJson?
+  let impl : Oracle.Query.Resp ← getField j "resp" >>= fromJson?
+  return cmpField "resp" (Oracle.Query.run st q) impl
+
 def check (j : Json) : Except String (Option String) := do
   let sub : String ← getField j "sub" >>= fromJson?
   match sub with
@@ -69,6 +81,7 @@ def check (j : Json) : Except String (Option String) := do
   | "rns" => checkRns j
   | "notif" => checkNotif j
   | "filetree" => checkFiletree j
+  | "oracle" => checkOracle j
   | s => throw s!"unknown query module {s}"
 
 end Driver.Query
